@@ -3,6 +3,7 @@
 -/
 import Props.Lemmas
 import Props.C06
+import Props.ImageGroup
 namespace Slinky.C17
 open Slinky
 
@@ -94,5 +95,29 @@ theorem hardcoded_gp (cx : Ctx) :
       ++ (match cx.d.settings.hardcodedGpValue with
           | some v => [.assign c!"_gp" (.hex8 v) false false false] | none => [])
       ++ [.blank] := rfl
+
+
+/-! ### in the linked image (the linker semantics `Slinkyv.Ld`) -/
+
+open Ld in
+/-- **C17, image clause for `gp_info`**: when the segment's `gp_info` is included and names the
+section, then behind that section group's statements `_gp` holds the start of the group — the
+location counter after both start alignments, the value of the group's start symbol
+(`C05.image_group_symbols`) — plus `offset`, as a 32-bit value; for every object table and every
+state of the link inside the output section. -/
+theorem image_gp_value (objs : List InSec) (cx : Ctx) (seg : Segment) (sec : Str) (hsy : cx.emitSecSyms = true)
+    (body : List Line) (hb : ∀ l ∈ body, W.BodyLine cx.d.settings.style seg.wildcardSections l)
+    (gp : GpInfo) (hgp : seg.gpInfo = some gp) (hem : shouldEmit cx.o gp.cond = true) (hsec : gp.sect = sec)
+    (off : Nat) (hoff : parseHex (toHexI32 gp.offset) = some off)
+    (c : Cur) (st : St) (hin : Inside c st) (k : List Line) :
+    lookupLast c!"_gp" (execK objs st (sectionSymStart cx seg sec ++ body ++ sectionSymEnd cx seg sec) k).syms
+      = some (.num ((c.addr + alignO (lookup sec seg.sectionsStartAlignment) (alignO seg.sectionStartAlign (st.dot - c.addr)) + off) % M32)) :=
+  group_gp_image objs cx seg sec hsy body hb gp hgp hem hsec off hoff c st hin k
+
+/-- the offsets `toHexI32` prints are read back as the 32-bit two's complement value (checked
+on the values the documentation mentions; a test, not a theorem about all offsets). -/
+example : parseHex (toHexI32 0x7FF0) = some 0x7FF0 := by decide
+example : parseHex (toHexI32 (-16)) = some 0xFFFFFFF0 := by decide
+example : parseHex (toHexI32 0) = some 0 := by decide
 
 end Slinky.C17
